@@ -4,6 +4,7 @@ pub mod c07;
 pub mod c08;
 pub mod c09;
 pub mod c10;
+pub mod c12;
 pub mod c13;
 pub mod c14;
 pub mod c15;
@@ -25,6 +26,7 @@ pub fn spec(id: &str) -> Option<PropertySpec> {
         "C08" => c08::spec(),
         "C09" => c09::spec(),
         "C10" => c10::spec(),
+        "C12" => c12::spec(),
         "C13" => c13::spec(),
         "C14" => c14::spec(),
         "C15" => c15::spec(),
